@@ -887,5 +887,122 @@ Proof.
     apply (Q1T_l s s3); [intros H; apply (proj2 (proj2 (proj2 (InvT_parts s3 IT3))))|].
     apply IH; assumption.
 Qed.
+
+(* ---------- whole runs ---------- *)
+Hypothesis R3_0 : R3 (core0 sc).
+Hypothesis R3_acts : forall s l s', J false s -> InvW s -> R3 s -> Forall wf_action l -> run_acts s l = R s' -> R3 s'.
+Hypothesis R3_main : forall s, R3 s -> R3 (set_quit (emit s TMain) false).
+
+Lemma core0_T1 : T1 (core0 sc) /\ ran (mst (core0 sc)) = [].
+Proof.
+  unfold core0.
+  destruct (if (sc_backend sc =? M_ET) || (sc_backend sc =? M_EP) then _ else _) as [efd k] eqn:E.
+  assert (CK : clock k = 1000000000).
+  { assert (KF : forall l k0, clock (fold_left k_user_fd l k0) = clock k0).
+    { induction l as [|i l IH]; intros k0; cbn [fold_left]; [reflexivity|]. rewrite IH. reflexivity. }
+    destruct ((sc_backend sc =? M_ET) || (sc_backend sc =? M_EP)); inversion E; subst; cbn; rewrite KF; reflexivity. }
+  split; [|reflexivity]. constructor.
+  - intros t H. cbn [heap HeapModel.batch HeapModel.init] in H. destruct H.
+  - split; [intros _ H; discriminate H|]. cbn [kern time_valid]. split; [lia|discriminate].
+  - intros y H. destruct H.
+  - intros c _ H. destruct H.
+Qed.
+
+Lemma core0_LKM : LKM (core0 sc).
+Proof.
+  intros _. apply LK_trivial.
+  - unfold core0. destruct (if (sc_backend sc =? M_ET) || (sc_backend sc =? M_EP) then _ else _) as [efd k]. reflexivity.
+  - intros _. unfold core0. destruct (if (sc_backend sc =? M_ET) || (sc_backend sc =? M_EP) then _ else _) as [efd k]. cbn. discriminate.
+Qed.
+
+Lemma T1_plain_event : forall s e, T1 s ->
+  match e with TMain | TTear _ | TDone _ => True | _ => False end ->
+  T1 (emit s e) /\ ran (mst (emit s e)) = ran (mst s).
+Proof.
+  intros s e T C. split.
+  - apply T1_emit; [exact T| | |]; destruct e; try contradiction;
+      try (rewrite a_stale_step; reflexivity); try (rewrite ran_step; reflexivity); reflexivity.
+  - rewrite mst_emit, ran_step. destruct e; try contradiction; reflexivity.
+Qed.
+
+Lemma T1_end : forall s q n, T1 s -> T1 (emit s (TEnd q n)).
+Proof.
+  intros s q n T.
+  assert (RN : ran (mst (emit s (TEnd q n))) = []) by (rewrite mst_emit, ran_step; reflexivity).
+  apply (T1_upd s _ T).
+  - left. repeat split.
+  - left. rewrite mst_emit, a_stale_step. repeat split.
+  - right. intros y Y. rewrite RN in Y. destruct Y.
+  - rewrite mst_emit. apply G1_step; [apply (t1_good _ T)|reflexivity].
+Qed.
+
+Lemma teardown_obj_Q1 : forall b s i, J b s -> T1 s -> ok_idx i -> Q1 s (teardown_obj s i).
+Proof.
+  intros b s i Jh T I. unfold teardown_obj.
+  eapply (Q1_bind b); [apply do_action_post; [assumption|exact I]|apply (do_action_Q1 b); [assumption|assumption|exact I]|]. intros s1 J1 T1'.
+  eapply (Q1_bind b); [apply do_action_post; [assumption|exact I]|apply (do_action_Q1 b); [assumption|assumption|exact I]|]. intros s2 J2 T2.
+  eapply (Q1_bind b); [apply do_action_post; [assumption|exact I]|apply (do_action_Q1 b); [assumption|assumption|exact I]|]. intros s3 J3 T3.
+  eapply (Q1_bind b); [apply do_action_post; [assumption|exact I]|apply (do_action_Q1 b); [assumption|assumption|exact I]|]. intros s4 J4 T4.
+  apply (do_action_Q1 b); [assumption|assumption|exact I].
+Qed.
+
+Lemma teardown_Q1 : forall b l s, J b s -> T1 s -> Forall ok_idx l -> Q1 s (teardown s l).
+Proof.
+  intros b l. induction l as [|i l IH]; intros s Jh T OK; cbn [teardown]; [apply Q1_same; exact T|].
+  inversion OK as [|? ? O1 O2]; subst.
+  eapply (Q1_bind b); [apply teardown_obj_post; assumption|apply (teardown_obj_Q1 b); assumption|].
+  intros s1 J1 T1'. apply IH; assumption.
+Qed.
+
+Lemma T1_deinit : forall s, T1 s -> T1 (deinit sc s).
+Proof.
+  intros s T. unfold deinit. destruct ((sc_backend sc =? M_ET) || (sc_backend sc =? M_EP)); [|exact T].
+  apply (T1_F0 s _ T). eapply F0_trans; [|apply do_close_F0].
+  destruct (tfd s =? -1); [apply F0_refl|apply do_close_F0].
+Qed.
+
+Theorem core_G1 : G1 (mon_run (run_scenario sc)).
+Proof.
+  unfold run_scenario.
+  match goal with |- G1 (mon_run (rev (trace (res_state ?r)))) => change (G1 (mst (res_state r))) end.
+  destruct core0_T1 as [T0 RN0].
+  destruct (core0_Inv sc WF) as (I0 & TM0 & N0).
+  assert (L0 : LoopInv (core0 sc)) by (apply LoopInv_Inv; split; assumption).
+  pose proof (run_acts_post false (sc_setup sc) (core0 sc) (core0_J sc) (wf_setup sc WF)) as P0.
+  pose proof (run_acts_Q1 false (sc_setup sc) (core0 sc) (core0_J sc) T0 (wf_setup sc WF)) as Q0.
+  pose proof (run_acts_ok do_action_ok (sc_setup sc) (core0 sc) (proj1 I0) (wf_setup sc WF)) as OK0.
+  pose proof (run_acts_K do_action_ok (sc_setup sc) (core0 sc) (proj1 I0) (wf_setup sc WF)) as PK0.
+  pose proof (R3_acts (core0 sc) (sc_setup sc)) as RA0.
+  destruct (run_acts (core0 sc) (sc_setup sc)) as [s1|s1]; cbn [bind Post Q1 res_state okr] in *; [|exact Q0].
+  destruct P0 as [J1 F1]. destruct Q0 as [TS1 [R1 _]].
+  pose proof (LoopInv_StepT _ _ L0 OK0) as L1.
+  assert (N1 : nwait (kern s1) = 0) by (rewrite (fr_nwait _ _ (proj1 (proj2 OK0))); exact N0).
+  unfold PK in PK0. cbn [ARes] in PK0. pose proof (LKM_TFs _ _ core0_LKM (proj2 PK0)) as LM1.
+  specialize (RA0 s1 (core0_J sc) (proj1 I0) R3_0 (wf_setup sc WF) eq_refl).
+  pose proof (J_main_enter s1 J1) as J2.
+  destruct (T1_plain_event s1 TMain TS1 I) as [TM RM].
+  destruct (main_enter s1 L1) as (L2 & N2).
+  set (s2 := set_quit (emit s1 TMain) false) in *.
+  assert (TS2 : T1 s2) by (apply (T1_setters (emit s1 TMain) s2 TM); reflexivity).
+  assert (RN2 : ran (mst s2) = []) by (change (mst s2) with (mst (emit s1 TMain)); rewrite RM; apply R1; exact RN0).
+  assert (LM2 : LKM s2) by (apply (LKM_TFs s1 s2 LM1); apply TFs_plain; reflexivity).
+  pose proof (wf_limit sc WF) as LIM.
+  assert (C2 : cur s2 = None) by (apply (proj2 F1); apply core0_cur).
+  pose proof (main_loop_post sc WF (Z.to_nat (sc_limit sc) + 2) s2 true J2 C2) as P3.
+  pose proof (main_loop_Q1 (Z.to_nat (sc_limit sc) + 2) s2 true J2 TS2 (proj2 (InvT_LoopInv s2) L2) LM2 (R3_main s1 RA0)
+                ltac:(rewrite N2, N1; lia) RN2) as Q3.
+  destruct (main_loop sc (Z.to_nat (sc_limit sc) + 2) s2 true) as [s3|s3]; cbn [bind res_state Q1T] in *; [|exact Q3].
+  pose proof (J_main_leave s3 P3) as J4.
+  pose proof (T1_end s3 (if quit s3 then 1 else 0) (numobjs s3) (proj1 Q3)) as TS4.
+  pose proof (teardown_post false (zseq 0 16) _ J4 zseq_ok) as P5.
+  pose proof (teardown_Q1 false (zseq 0 16) _ J4 TS4 zseq_ok) as Q5.
+  destruct (teardown (emit s3 (TEnd (if quit s3 then 1 else 0) (numobjs s3))) (zseq 0 16)) as [s5|s5];
+    cbn [bind Post Q1 res_state] in *; [|exact Q5].
+  destruct Q5 as [TS5 _].
+  destruct (T1_plain_event s5 (TTear (numobjs s5)) TS5 I) as [TS6 _].
+  pose proof (T1_deinit _ TS6) as TS7.
+  destruct (T1_plain_event _ (TDone (open_dyn (kern (deinit sc (emit s5 (TTear (numobjs s5))))))) TS7 I) as [TS8 _].
+  apply (t1_good _ TS8).
+Qed.
 End Wait.
 End RA.
